@@ -34,7 +34,7 @@ LIMIT = 2.5
 
 
 def cases(tier, seed):
-    n = 320 if tier == "quick" else 5000
+    n = 320 if tier == "quick" else 30000
     return [{"seed": seed * 9973 + i} for i in range(n)]
 
 
